@@ -129,6 +129,14 @@ func gsxApply(c *linter.Checker, in *gsxInput) {
 	// the context is shared by all checkers (and, in the CLI, by concurrent
 	// goroutines): read-only while a checker runs
 	if cc, ok := gsxrt.Field(c, "ctx").(linter.CheckerContext); ok && cc.Context != nil {
+		// as the drivers do: the file is announced to the context (which resolves its
+		// imports for the checkers that ask for them) before any checker runs
+		if cc.Context.Require.PkgObjects || cc.Context.Require.PkgRenames {
+			if in.efile == nil {
+				gsxrt.Lazy(in.prefix+"efile", 2, &in.efile)
+			}
+			cc.Context.SetFileInfo("cand.go", in.efile)
+		}
 		gsxrt.Protect("context", cc.Context)
 		defer gsxrt.Unprotect(cc.Context)
 	}
